@@ -256,3 +256,64 @@ Proof.
   assert (Hd : exists info, driverInit ex_mem nofail 0x2000 true = (ex_state, IOk, info)) by (eexists; vm_compute; reflexivity).
   destruct Hd as (info & Hd). rewrite Hd in H. exact H.
 Qed.
+
+(** ---- audit B: the theorems that had no example of their own ---- *)
+(** C14_validTable_trans_spec: hypotheses as for C14_validTable_is_translation; with the concrete run above the theorem
+    yields the specification side for the valid APIC table and for the corrupted SSDT *)
+Example C14_validTable_trans_spec_nonvacuous :
+  0x3000 < two64 /\ 44 < two32 /\ (N.to_nat 44 < 45)%nat /\ sums_to_zero ex_mem 0x3000 44 /\ sums_to_nonzero ex_mem 0x3100 36.
+Proof.
+  assert (H1 : 0x3000 < two64) by (unfold two64; lia).
+  assert (H2 : 44 < two32) by (unfold two32; lia).
+  assert (H3 : (N.to_nat 44 < 45)%nat) by (vm_compute; lia).
+  assert (H1' : 0x3100 < two64) by (unfold two64; lia).
+  assert (H2' : 36 < two32) by (unfold two32; lia).
+  assert (H3' : (N.to_nat 36 < 37)%nat) by (vm_compute; lia).
+  split; [exact H1|]. split; [exact H2|]. split; [exact H3|]. split.
+  - apply (proj1 (C14_validTable_trans_spec ex_mem [] 0x3000 44 45 H1 H2 H3)). exact C14_trans_validTable_good.
+  - apply (proj2 (C14_validTable_trans_spec ex_mem [] 0x3100 36 37 H1' H2' H3')). exact C14_trans_validTable_corrupted.
+Qed.
+
+(** C14_probe_is_translation: the hypotheses (those of C14_locateRSDT_is_translation) on the example image, and the theorem's
+    answer agrees with the concrete run: a driver carrying (0x2000, XSDT) *)
+Example C14_probe_trans_nonvacuous :
+  bytes_ok ex_mem /\ 0x1000 < two64 /\ 0 < 16 /\ 0x105f + 16 <= two64 /\
+  (N.to_nat (T.locate_fuel 0x1000 0x105f 16) < 100)%nat /\
+  T.probe_result [] 0x1000 (locateRSDT ex_mem 0x1000 0x105f 16 None) =
+  GOk (mk_go_acpi_world [unmapev 1; mapev 1], (true, 0x2000, true)).
+Proof.
+  assert (H1 : 0x1000 < two64) by (unfold two64; lia).
+  assert (H2 : 0 < 16) by lia.
+  assert (H3 : 0x105f + 16 <= two64) by (unfold two64; lia).
+  assert (H4 : (N.to_nat (T.locate_fuel 0x1000 0x105f 16) < 100)%nat) by (vm_compute; lia).
+  split; [exact C14_bytes_ok_nonvacuous|]. split; [exact H1|]. split; [exact H2|]. split; [exact H3|]. split; [exact H4|].
+  rewrite <- (C14_probe_is_translation ex_mem 0x1000 0x105f 16 None [] 100 C14_bytes_ok_nonvacuous H1 H2 H3 H4).
+  exact C14_trans_probe_run.
+Qed.
+
+(** C14_driverInit_is_translation: hypotheses and the IOk branch at the example image *)
+Example C14_driverInit_trans_nonvacuous :
+  bytes_ok ex_mem /\ 0x2000 < two64 /\ (N.to_nat two32 <= N.to_nat two32)%nat /\
+  exists tr, go_acpi_acpiDriver_DriverInit (N.to_nat two32) w0 0x2000 true ld (T.o_idmap nofail) =
+             GOk (mk_go_acpi_world (T.ev_print :: tr), None) /\ T.abs tr = ex_state.
+Proof.
+  assert (H1 : 0x2000 < two64) by (unfold two64; lia).
+  split; [exact C14_bytes_ok_nonvacuous|]. split; [exact H1|]. split; [apply le_n|].
+  pose proof (C14_driverInit_is_translation ex_mem nofail 0x2000 true (N.to_nat two32) C14_bytes_ok_nonvacuous H1 (le_n _)) as H.
+  cbv zeta in H.
+  assert (Hd : exists info, driverInit ex_mem nofail 0x2000 true = (ex_state, IOk, info)) by (eexists; vm_compute; reflexivity).
+  destruct Hd as (info & Hd). rewrite Hd in H. exact H.
+Qed.
+
+(** the side conditions of the locateRSDT / probe theorems at the KERNEL's own search window (0xe0000 .. 0xfffff, step 16)
+    with a fuel a caller can write down: 32 pages + 8191 slots + the per-slot constant, below 10000 *)
+Example C14_locateRSDT_trans_real_input :
+  acpi_rsdpLocationLow = 0xe0000 /\ acpi_rsdpLocationHi = 0xfffff /\ acpi_rsdpAlignment = 16 /\
+  acpi_rsdpLocationLow < two64 /\ 0 < acpi_rsdpAlignment /\ acpi_rsdpLocationHi + acpi_rsdpAlignment <= two64 /\
+  T.locate_fuel acpi_rsdpLocationLow acpi_rsdpLocationHi acpi_rsdpAlignment < 10000 /\
+  (N.to_nat (T.locate_fuel acpi_rsdpLocationLow acpi_rsdpLocationHi acpi_rsdpAlignment) < N.to_nat 10000)%nat.
+Proof.
+  assert (Hf : T.locate_fuel acpi_rsdpLocationLow acpi_rsdpLocationHi acpi_rsdpAlignment < 10000) by (vm_compute; reflexivity).
+  repeat split; try (vm_compute; reflexivity); try (vm_compute; discriminate).
+  revert Hf. generalize (T.locate_fuel acpi_rsdpLocationLow acpi_rsdpLocationHi acpi_rsdpAlignment). intros a Ha. lia.
+Qed.
